@@ -104,6 +104,8 @@ def evaluate(S, name, d):
     if RERUN and KNOWN_ONLY and not BENIGN:
         m = json.load(open(os.path.join(d, 'meta.json')))
         ids = ' '.join(sorted(set(m.get('quick_checks_reporting_a_violation', {})) | {m['property']}))
+    if os.environ.get('EVAL_IDS'):
+        ids = os.environ['EVAL_IDS']   # restrict the checks that are run (recorded by the caller)
     if OWN_FIRST and not RERUN and not BENIGN:
         ids = name.split('-')[0]
     out = sh(f'{S}/verif/tools/run_all.sh quick {ids}', env=env2).stdout
